@@ -12,6 +12,7 @@ From Pandora Require Import Lib.Blocks Model.Dataset Model.Machine Model.Multisc
 From Pandora Require Import Spec.Language Spec.CrossCheck Spec.Multiscale.
 From Pandora Require Import Proofs.MachineP Proofs.MultiscaleP Gen.Tables Gen.MsConst.
 From Pandora Require Lib.BlockSkeleton Proofs.SkelMultiscaleP Gen.BlockLoops.
+From Pandora Require Import Model.ScaleArith Gen.ScaleArith Gen.ScaleArithRange Proofs.ScaleArithGenP Proofs.ScaleArithRangeGenP.
 Import ListNotations.
 Open Scope Z_scope.
 
@@ -297,6 +298,157 @@ Proof.
   split; [exists (-2); reflexivity|]. split; [exists 1; reflexivity|]. reflexivity.
 Qed.
 
+(* ==================================================================================================
+   The interval arithmetic of the state machine, on the text of the code itself.
+   Gen/ScaleArith.v is regenerated at every run from pandora/state_machine.py (run_prepare: both branches,
+   matching_cost_prepare, run_multiscale) and Gen/ScaleArithRange.v from pandora/multiscale/fixed_zoom_pyramid.py
+   (disparity_range: initial, window, invalid-index values and the zoom call) by translator/gen_scale_arith.py (ast,
+   statement by statement, fail closed).  C15_gen_*_is_model: the generated functions ARE the hand-written model used by the
+   theorems above, for ALL inputs (re-proved at every run: `//` for `/`, scale_factor ** (num_scales - 1), a right
+   interval not negated or not swapped, a dropped marge, nanmax for nanmin ... no longer check).  The other
+   C15_gen_* theorems restate the interval theorems directly on the generated functions. *)
+
+(* run_prepare, prologue and branch test: several scales only when both parameters are given *)
+Theorem C15_gen_params_is_model : forall pn psf,
+  run_prepare_params pn psf = match pn, psf with Some n, Some sf => (n, sf) | _, _ => (1, 1) end /\
+  (forall sn ssf, run_prepare_is_multi sn ssf = (1 <? sn)) /\
+  (run_prepare_is_multi (fst (run_prepare_params pn psf)) (snd (run_prepare_params pn psf)) = true ->
+   exists n sf, pn = Some n /\ psf = Some sf /\ run_prepare_params pn psf = (n, sf) /\ 1 < n).
+Proof.
+  intros pn psf. split; [exact (gen_params_is_model pn psf)|]. split; [exact gen_is_multi_is_model|].
+  exact (gen_multi_needs_params pn psf).
+Qed.
+
+(* run_prepare, multiscale branch = run_prepare_interval / right_interval of Model/Multiscale.v, n levels *)
+Theorem C15_gen_prepare_multi_is_model : forall n sf dmin dmax,
+  run_prepare_multi (Z.of_nat n) sf (Z.of_nat n) sf (inject_Z dmin) (inject_Z dmax) = model_prepare_multi n sf dmin dmax.
+Proof. exact gen_prepare_multi_is_model. Qed.
+
+(* ... field by field, for arbitrary bounds, parameters and attributes *)
+Theorem C15_gen_prepare_multi_fields : forall pn psf sn ssf lmin lmax,
+  let o := run_prepare_multi pn psf sn ssf lmin lmax in
+  let d := inject_Z (ssf ^ sn) in
+  pm_pyramid_levels o = sn /\ pm_pyramid_factor o = psf /\ pm_current_scale o = pn - 1 /\
+  pm_disp_min o = (lmin / d)%Q /\ pm_disp_max o = (lmax / d)%Q /\
+  pm_dmin_user o = pm_disp_min o /\ pm_dmax_user o = pm_disp_max o /\
+  (pm_right_disp_min o, pm_right_disp_max o) = right_interval (pm_disp_min o, pm_disp_max o) /\
+  pm_dmin_user_right o = pm_right_disp_min o /\ pm_dmax_user_right o = pm_right_disp_max o.
+Proof. exact gen_prepare_multi_fields. Qed.
+
+(* matching_cost_prepare = scale_interval (x scale_factor), right interval under the guard only *)
+Theorem C15_gen_matching_cost_prepare_is_model : forall sf g dmin dmax rmin rmax,
+  matching_cost_prepare sf g dmin dmax rmin rmax = model_mcp sf g (dmin, dmax) (rmin, rmax).
+Proof. exact gen_mcp_is_model. Qed.
+
+(* run_multiscale = user interval x scale_factor handed to disparity_range, scale - 1 *)
+Theorem C15_gen_run_multiscale_is_model : forall sf cs g a b c d,
+  run_multiscale sf cs g a b c d = model_msc sf cs g (a, b) (c, d).
+Proof. exact gen_msc_is_model. Qed.
+
+(* disparity_range: int(np.nanmin(disp_min)) / int(np.nanmax(disp_max)) as initial value and at the invalid
+   indices (whatever the other two reductions are), nanmin - marge / nanmax + marge of the window, the window
+   offset, zoom by scale_factor of order 0 *)
+Theorem C15_gen_disparity_range_is_model :
+  (forall a b c d, (Some (inject_Z (range_min_invalid a b c d)), Some (inject_Z (range_max_invalid a b c d))) = fallback a d) /\
+  (forall a b c d, (Some (inject_Z (range_min_init a b c d)), Some (inject_Z (range_max_init a b c d))) = fallback a d) /\
+  (forall m M m' M' marge,
+     range_min_window m M' marge = (m - qz marge)%Q /\ range_max_window m' M marge = (M + qz marge)%Q) /\
+  (forall ib ws marge D V i j,
+     win_range ib ws marge D V i j =
+     (option_map (fun m => range_min_window m m marge) (qfold qmin2 (win_vals ib ws D V i j)),
+      option_map (fun M => range_max_window M M marge) (qfold qmax2 (win_vals ib ws D V i j)))) /\
+  (forall ws, 1 <= ws -> range_offset ws = offset ws) /\
+  (forall sf, range_min_zoom sf = (sf, 0, ZoomNearest) /\ range_max_zoom sf = (sf, 0, ZoomNearest) /\
+              range_zoom_skipped sf = (sf =? 1)).
+Proof.
+  split; [exact gen_range_fallback_is_model|]. split; [exact gen_range_init_is_model|].
+  split; [exact gen_range_window_is_model|]. split; [exact gen_win_range_is_model|].
+  split; [exact gen_range_offset_is_model | exact gen_range_zoom_is_model].
+Qed.
+
+(* the first grids of the model of the whole run (run_grids, used by C15_coarsest_interval and
+   C15_finer_interval) are what the generated run_prepare + matching_cost_prepare hand to allocate_cost_volume *)
+Theorem C15_gen_first_grids : forall marge sf dmin dmax H W n wr lvls,
+  exists a b, mc_alloc_left (gen_first_mcp n sf dmin dmax wr) = Some a /\
+    hd_error (run_grids ms_invalid_bits marge sf dmin dmax H W n wr lvls)
+    = Some (GConst H W a, if wr then Some (GConst H W b) else None) /\
+    (if wr then exists b', mc_alloc_right (gen_first_mcp n sf dmin dmax wr) = Some b' /\ qpair_eq b' b
+     else mc_alloc_right (gen_first_mcp n sf dmin dmax wr) = None).
+Proof. exact (gen_first_grids ms_invalid_bits). Qed.
+
+(* ... and the grids of every finer level of that model are next_grids applied to the very bounds the generated
+   run_multiscale hands to disparity_range at its (i+1)-th execution (so C15_finer_interval and
+   C15_finer_interval_as_computed speak about the user interval the code computes) *)
+Theorem C15_gen_finer_grids_user : forall marge sf dmin dmax H W n wr lvls i l,
+  nth_error lvls i = Some l ->
+  exists u gr, ms_range_left (gen_msc_iter sf true (S i) (gen_after_prepare n sf dmin dmax)) = Some u /\
+    nth_error (run_grids ms_invalid_bits marge sf dmin dmax H W n wr lvls) (S i)
+    = Some (GMap (next_grids ms_invalid_bits (lv_ws l) marge sf (fst (lv_left l)) (snd (lv_left l)) (fst u) (snd u)
+                             (fst (lv_zoom l)) (snd (lv_zoom l))), gr).
+Proof. exact (gen_finer_grids_user ms_invalid_bits). Qed.
+
+(* C15_coarsest_interval on the generated functions: the pyramid has n levels of factor sf, the first
+   execution is at scale n - 1 and its cost volumes are allocated on the user interval / sf^(n-1) -- the code
+   divides by sf^n in run_prepare and multiplies by sf in matching_cost_prepare --, mirrored for the right one *)
+Theorem C15_gen_coarsest_interval : forall n sf dmin dmax, 1 <= sf -> (1 <= n)%nat ->
+  let p := gen_prepare n sf dmin dmax in
+  pm_pyramid_levels p = Z.of_nat n /\ pm_pyramid_factor p = sf /\ pm_current_scale p = Z.of_nat n - 1 /\
+  exists a ar, mc_alloc_left (gen_first_mcp n sf dmin dmax true) = Some a /\
+               mc_alloc_right (gen_first_mcp n sf dmin dmax true) = Some ar /\
+               mc_alloc_left (gen_first_mcp n sf dmin dmax false) = Some a /\
+               mc_alloc_right (gen_first_mcp n sf dmin dmax false) = None /\
+               qpair_eq a (user_interval dmin dmax sf (n - 1)) /\ qpair_eq ar (mirrored a).
+Proof. exact gen_coarsest_interval. Qed.
+
+(* after k executions of the generated run_multiscale: the user interval seen from level n - k (the
+   argument of the k-th disparity_range call, i.e. what invalid and border pixels fall back to), mirrored for
+   the right image, and current_scale = n - 1 - k *)
+Theorem C15_gen_user_interval_at_level : forall n sf dmin dmax k, 1 <= sf -> (k <= n)%nat ->
+  let t := gen_msc_iter sf true k (gen_after_prepare n sf dmin dmax) in
+  qpair_eq (ms_dmin_user t, ms_dmax_user t) (user_interval dmin dmax sf (n - k)) /\
+  qpair_eq (ms_dmin_user_right t, ms_dmax_user_right t) (mirrored (user_interval dmin dmax sf (n - k))) /\
+  ms_current_scale t = Z.of_nat n - 1 - Z.of_nat k /\
+  ((0 < k)%nat -> ms_range_left t = Some (ms_dmin_user t, ms_dmax_user t) /\
+                  ms_range_right t = Some (ms_dmin_user_right t, ms_dmax_user_right t)).
+Proof. exact gen_user_interval_at_level. Qed.
+
+(* the class of the recorded finding fallback_interval_truncated on the generated expressions: the value
+   disparity_range stores at invalid indices (and initialises border pixels with), scaled by the generated
+   matching_cost_prepare, is scale_factor * int(bound): the level's user bound iff the coarser bound is an integer *)
+Theorem C15_gen_fallback_finding_class : forall sf g umin umax x1 x2 y1 y2, 1 <= sf ->
+  let lo := inject_Z (range_min_invalid umin x1 x2 umax) in
+  let hi := inject_Z (range_max_invalid umin x1 x2 umax) in
+  let m := matching_cost_prepare sf g lo hi y1 y2 in
+  lo = inject_Z (range_min_init umin x1 x2 umax) /\ hi = inject_Z (range_max_init umin x1 x2 umax) /\
+  mc_alloc_left m = Some (mc_disp_min m, mc_disp_max m) /\
+  mc_disp_min m = (inject_Z (qtrunc umin) * inject_Z sf)%Q /\ mc_disp_max m = (inject_Z (qtrunc umax) * inject_Z sf)%Q /\
+  (integral umin -> (mc_disp_min m == umin * inject_Z sf)%Q) /\
+  (integral umax -> (mc_disp_max m == umax * inject_Z sf)%Q) /\
+  (~ integral umin -> ~ (mc_disp_min m == umin * inject_Z sf)%Q) /\
+  (~ integral umax -> ~ (mc_disp_max m == umax * inject_Z sf)%Q).
+Proof. exact gen_fallback_finding_class. Qed.
+
+(* interior pixels: scale_factor * [min - marge, max + marge] of the window *)
+Theorem C15_gen_window_interval : forall sf g m M marge y1 y2,
+  let c := matching_cost_prepare sf g (range_min_window m M marge) (range_max_window m M marge) y1 y2 in
+  mc_alloc_left c = Some ((m - inject_Z marge) * inject_Z sf, (M + inject_Z marge) * inject_Z sf)%Q.
+Proof. exact gen_window_interval. Qed.
+
+(* the generated functions on the finding's witness (disp [-7, 4], scale_factor 3, 2 scales): the coarsest level
+   searches [-7/3, 4/3] (right image [-4/3, 7/3]), run_multiscale hands [-7/3, 4/3] to disparity_range, whose fallback
+   int(-7/3), int(4/3) = -2, 1 gives [-6, 3] at level 0 *)
+Example C15_gen_witness :
+  let m := gen_first_mcp 2 3 (-7) 4 true in
+  let t := gen_msc_iter 3 true 1 (gen_after_prepare 2 3 (-7) 4) in
+  option_map (fun i => (Qred (fst i), Qred (snd i))) (mc_alloc_left m) = Some ((-7 # 3)%Q, (4 # 3)%Q) /\
+  option_map (fun i => (Qred (fst i), Qred (snd i))) (mc_alloc_right m) = Some ((-4 # 3)%Q, (7 # 3)%Q) /\
+  option_map (fun i => (Qred (fst i), Qred (snd i))) (ms_range_left t) = Some ((-7 # 3)%Q, (4 # 3)%Q) /\
+  ms_current_scale t = 0 /\
+  range_min_invalid (-7 # 3) 0 0 (4 # 3) = -2 /\ range_max_invalid (-7 # 3) 0 0 (4 # 3) = 1 /\
+  option_map (fun i => (Qred (fst i), Qred (snd i)))
+             (mc_alloc_left (matching_cost_prepare 3 false (inject_Z (-2)) (inject_Z 1) 0 0)) = Some ((-6 # 1)%Q, (3 # 1)%Q).
+Proof. vm_compute. repeat split. Qed.
+
 Print Assumptions C15_constants_match.
 Print Assumptions C15_block_loop_skeleton.
 Print Assumptions C15_model_loop_is_generated_skeleton.
@@ -322,3 +474,15 @@ Print Assumptions C15_fallback_refuted.
 Print Assumptions C15_finer_interval.
 Print Assumptions C15_fallback_finding_class.
 Print Assumptions C15_spec_checker_sound.
+Print Assumptions C15_gen_params_is_model.
+Print Assumptions C15_gen_prepare_multi_is_model.
+Print Assumptions C15_gen_prepare_multi_fields.
+Print Assumptions C15_gen_matching_cost_prepare_is_model.
+Print Assumptions C15_gen_run_multiscale_is_model.
+Print Assumptions C15_gen_disparity_range_is_model.
+Print Assumptions C15_gen_first_grids.
+Print Assumptions C15_gen_finer_grids_user.
+Print Assumptions C15_gen_coarsest_interval.
+Print Assumptions C15_gen_user_interval_at_level.
+Print Assumptions C15_gen_fallback_finding_class.
+Print Assumptions C15_gen_window_interval.
